@@ -10,4 +10,10 @@ W=$(mktemp -d /tmp/verif.setup.XXXXXX)
 trap 'rm -rf "$W"' EXIT
 "$ROOT/.bin/inst" -repo "${VERIF_REPO:-/repo}" -out "$W" -rt "$ROOT/engine/rt"
 go build -tags verif -overlay "$W/overlay.json" -o "$W/vcheck" ./cmd/vcheck
+# warm the -race build used by the free-running monitor of C14/C15
+mkdir -p "$W/plain"
+"$ROOT/.bin/inst" -plain -repo "${VERIF_REPO:-/repo}" -out "$W/plain" -rt "$ROOT/engine/rt" > /dev/null
+go build -race -tags verif -overlay "$W/plain/overlay.json" -o "$W/vcheck.race" ./cmd/vcheck
+# the reference models' own tests (round trip over the corpus, byte vectors)
+go test -count=1 ./wire/ > "$W/wire_test.log" 2>&1 || { cat "$W/wire_test.log"; echo "reference model self-test failed"; exit 1; }
 echo setup ok
